@@ -138,6 +138,43 @@ fn main() {
             }
             std::fs::write(&args[3], out).expect("write");
         }
+        "curate-triangulations" => {
+            // corpus curation: closed 3-manifolds from seeded random face pairings
+            // of k tetrahedra: lines "k<TAB>seed<TAB>chambers<TAB>H1<TAB>orientable"
+            let kmax: usize = args.get(2).and_then(|s| s.parse().ok()).unwrap_or(4);
+            let tries: u64 = args.get(3).and_then(|s| s.parse().ok()).unwrap_or(100000);
+            let keep: usize = args.get(4).and_then(|s| s.parse().ok()).unwrap_or(300);
+            for k in 1..=kmax {
+                let mut seen = std::collections::BTreeSet::new();
+                let mut kept = 0;
+                for sd in 0..tries {
+                    let m = match gen::random_triangulation(k, sd) {
+                        Some(m) => m,
+                        None => continue,
+                    };
+                    if !m.is_connected() || dsx::manifold_check(&m).is_err() {
+                        continue;
+                    }
+                    let h = match homology::h1(&m) {
+                        Ok(h) => h,
+                        Err(_) => continue,
+                    };
+                    let mut deg: Vec<usize> = m.orbits(&[2, 3]).iter().map(|o| o.len()).collect();
+                    deg.sort();
+                    let mut vl: Vec<usize> = m.orbits(&[1, 2, 3]).iter().map(|o| o.len()).collect();
+                    vl.sort();
+                    if !seen.insert((h.clone(), deg, vl)) {
+                        continue;
+                    }
+                    println!("{}\t{}\t{}\t{}\t{}", k, sd, m.n, h.iter().map(|x| x.to_string()).collect::<Vec<_>>().join(" "), m.is_oriented());
+                    kept += 1;
+                    if kept >= keep {
+                        break;
+                    }
+                }
+                eprintln!("k = {}: kept {}", k, kept);
+            }
+        }
         "curate-sg-witnesses" => {
             // corpus curation: for every entry of the space-group invariant table
             // a known-euclidean witness (cover of a cover of the cubic / hexagonal
